@@ -159,6 +159,10 @@ var assumptions = []string{
 // ---------------------------------------------------------------- (b) random histories
 
 func genB(t *rapid.T) Case {
+	// about one history in six runs over a large universe and starts from a built shape
+	if rapid.IntRange(0, 5).Draw(t, "universe") == 0 {
+		return genLarge(t)
+	}
 	var c Case
 	n := rapid.IntRange(3, 5).Draw(t, "agents")
 	seen := map[uint32]bool{0: true, unknownID: true}
@@ -213,10 +217,282 @@ func genB(t *rapid.T) Case {
 	return c
 }
 
+// ---------------------------------------------------------------- (b) large universes, built shapes
+
+var (
+	chainDepths = []int{15, 16, 17, 18, 31, 32, 33, 64, 65}
+	halfDepths  = []int{7, 8, 9, 15, 16, 17, 31, 32, 33}
+	ancDists    = []int{1, 2, 15, 16, 17}
+)
+
+func drawIDs(t *rapid.T, n int) []uint32 {
+	var ids []uint32
+	seen := map[uint32]bool{0: true, unknownID: true}
+	for len(ids) < n {
+		id := rapid.OneOf(
+			rapid.Uint32Range(1, 0x7fffffff),
+			rapid.Uint32Range(1, 0x7fffffff),
+			rapid.Uint32Range(0x80000000, 0xffffffff),
+		).Draw(t, "id")
+		if seen[id] {
+			continue
+		}
+		seen[id] = true
+		ids = append(ids, id)
+	}
+	return ids
+}
+
+func clampInt(v, lo, hi int) int {
+	if v < lo {
+		return lo
+	}
+	if v > hi {
+		return hi
+	}
+	return v
+}
+
+// genLarge: a universe of 20-70 agents.  The history starts with the connects that build a
+// shape by construction (every connect names an id the teamserver has not seen, which is the
+// cheapest way to bring an agent in: one callback registers and links it), then 1..25 events
+// follow, about half of them chosen with the shape in view (the model forest tells the
+// generator who is deep, who is whose ancestor and which subtrees were cut off), the rest
+// drawn as in the small universes.
+func genLarge(t *rapid.T) Case {
+	var c Case
+	c.Shape = rapid.SampledFrom([]string{"chain", "chain", "chain", "star", "broom", "two-chains", "two-chains"}).Draw(t, "shape")
+	depth := func(label string, set []int, lo, hi int) int {
+		d := rapid.OneOf(rapid.SampledFrom(set), rapid.SampledFrom(set), rapid.SampledFrom(set), rapid.IntRange(lo, hi)).Draw(t, label)
+		return clampInt(d, lo, hi)
+	}
+	var shape []Op
+	need := 0
+	c.Init = []int{0}
+	switch c.Shape {
+	case "chain":
+		d := depth("depth", chainDepths, 3, 69)
+		for i := 1; i <= d; i++ {
+			shape = append(shape, Op{K: "connect", A: i - 1, B: i})
+		}
+		need = d + 1
+	case "star":
+		k := rapid.IntRange(15, 60).Draw(t, "rays")
+		for i := 1; i <= k; i++ {
+			shape = append(shape, Op{K: "connect", A: 0, B: i})
+		}
+		need = k + 1
+	case "broom":
+		d := depth("depth", chainDepths, 3, 60)
+		f := rapid.IntRange(2, 8).Draw(t, "fan")
+		for i := 1; i <= d; i++ {
+			shape = append(shape, Op{K: "connect", A: i - 1, B: i})
+		}
+		for j := 1; j <= f; j++ {
+			shape = append(shape, Op{K: "connect", A: d, B: d + j})
+		}
+		need = d + 1 + f
+	case "two-chains":
+		d1 := depth("depth1", halfDepths, 2, 34)
+		d2 := depth("depth2", halfDepths, 2, 33)
+		r := d1 + 1
+		c.Init = []int{0, r}
+		for i := 1; i <= d1; i++ {
+			shape = append(shape, Op{K: "connect", A: i - 1, B: i})
+		}
+		for i := 1; i <= d2; i++ {
+			shape = append(shape, Op{K: "connect", A: r + i - 1, B: r + i})
+		}
+		need = d1 + d2 + 2
+	}
+	n := clampInt(need+rapid.IntRange(0, 6).Draw(t, "spare"), 20, 70)
+	c.IDs = drawIDs(t, n)
+	c.DB = rapid.SampledFrom([]string{"fresh", "existed", "golden"}).Draw(t, "db")
+
+	m := newModel(c)
+	scratch := summary{classes: map[string]int{}}
+	var cuts []int
+	emit := func(op Op) {
+		c.Ops = append(c.Ops, op)
+		m.step(op, &scratch)
+	}
+	for _, op := range shape {
+		emit(op)
+	}
+	if rapid.IntRange(0, 3).Draw(t, "restart-after-shape") == 0 {
+		emit(Op{K: "reopen"})
+	}
+
+	pick := func(label string, from []int) int { // from is never empty when called
+		return from[rapid.IntRange(0, len(from)-1).Draw(t, label)]
+	}
+	// a deep sender: the deepest agent, an agent that has a parent, or any known agent
+	deepNode := func() int {
+		known := m.sortedKnown()
+		if len(known) == 0 {
+			return 0
+		}
+		switch rapid.IntRange(0, 9).Draw(t, "deep-kind") {
+		case 0, 1:
+			return pick("any", known)
+		case 2, 3, 4:
+			var linked []int
+			for _, x := range known {
+				if _, ok := m.parent[x]; ok {
+					linked = append(linked, x)
+				}
+			}
+			if len(linked) > 0 {
+				return pick("linked", linked)
+			}
+		}
+		best, bd := known[0], -1
+		for _, x := range known {
+			if d := m.depth(x); d > bd {
+				best, bd = x, d
+			}
+		}
+		return best
+	}
+	// descendants of x with their distance below x, in universe order
+	below := func(x int) (nodes, dists []int) {
+		for _, y := range m.sortedKnown() {
+			if d := m.dist(x, y); d > 0 {
+				nodes = append(nodes, y)
+				dists = append(dists, d)
+			}
+		}
+		return
+	}
+	generic := func() {
+		kinds := []string{"connect", "connect", "connect", "connect", "connect", "connect", "connect", "connect",
+			"disconnect", "disconnect", "disconnect", "disconnect",
+			"exit", "killdate", "markdead", "markdead", "markalive", "reg", "connectfail", "reopen"}
+		op := Op{K: rapid.SampledFrom(kinds).Draw(t, "kind"), A: rapid.IntRange(0, n-1).Draw(t, "actor")}
+		if rapid.Bool().Draw(t, "known-actor") { // most of a large universe may be unknown: prefer agents that can act
+			if known := m.sortedKnown(); len(known) > 0 {
+				if a := pick("actor-known", known); a < n {
+					op.A = a
+				}
+			}
+		}
+		switch op.K {
+		case "connect":
+			op.B = rapid.IntRange(-1, n-1).Draw(t, "child")
+		case "disconnect":
+			op.B = rapid.IntRange(-1, n-1).Draw(t, "named")
+			op.F = rapid.IntRange(0, 9).Draw(t, "removed") == 0
+			op.R = rapid.Bool().Draw(t, "pick-child")
+		}
+		emit(op)
+	}
+
+	nops := rapid.IntRange(1, 25).Draw(t, "nops")
+	for i := 0; i < nops; i++ {
+		switch rapid.SampledFrom([]string{"anc", "anc", "anc", "anc", "anc", "self", "cross", "cross", "cut", "cut", "cut",
+			"recut", "recut", "recut", "reopen", "reopen", "death", "alive",
+			"generic", "generic", "generic", "generic", "generic", "generic", "generic", "generic", "generic", "generic"}).Draw(t, "biased") {
+		case "anc": // a deep agent names its ancestor at a drawn distance
+			a := deepNode()
+			dep := m.depth(a)
+			if dep == 0 || a >= n {
+				generic()
+				continue
+			}
+			d := rapid.OneOf(rapid.SampledFrom(ancDists), rapid.SampledFrom([]int{dep - 1, dep}), rapid.IntRange(1, dep)).Draw(t, "distance")
+			emit(Op{K: "connect", A: a, B: m.up(a, clampInt(d, 1, dep))})
+		case "self":
+			if a := deepNode(); a < n {
+				emit(Op{K: "connect", A: a, B: a})
+			}
+		case "cross": // a known agent of another tree (root, inner or leaf) is linked below the sender
+			a := deepNode()
+			var other []int
+			for _, x := range m.sortedKnown() {
+				if x < n && m.root(x) != m.root(a) {
+					other = append(other, x)
+				}
+			}
+			if a >= n || len(other) == 0 {
+				generic()
+				continue
+			}
+			emit(Op{K: "connect", A: a, B: pick("other-tree", other)})
+		case "cut": // a parent reports the disconnect of a child somewhere in the middle
+			var linked []int
+			for _, x := range m.sortedKnown() {
+				if p, ok := m.parent[x]; ok && x < n && p < n {
+					linked = append(linked, x)
+				}
+			}
+			if len(linked) == 0 {
+				generic()
+				continue
+			}
+			x := pick("cut-at", linked)
+			emit(Op{K: "disconnect", A: m.parent[x], B: x})
+			cuts = append(cuts, x)
+		case "recut": // the root of a cut-off subtree is named by one of its own descendants, or linked elsewhere
+			if len(cuts) == 0 {
+				generic()
+				continue
+			}
+			x := pick("cut", cuts)
+			nodes, dists := below(x)
+			if len(nodes) > 0 && rapid.IntRange(0, 3).Draw(t, "recut-kind") != 0 {
+				far := 0
+				for _, d := range dists {
+					if d > far {
+						far = d
+					}
+				}
+				want := clampInt(rapid.OneOf(rapid.SampledFrom(ancDists), rapid.Just(far), rapid.IntRange(1, far)).Draw(t, "distance"), 1, far)
+				a := -1
+				for j, y := range nodes {
+					if dists[j] == want && y < n {
+						a = y
+						break
+					}
+				}
+				if a >= 0 {
+					emit(Op{K: "connect", A: a, B: x})
+					continue
+				}
+			}
+			if a := deepNode(); a < n {
+				emit(Op{K: "connect", A: a, B: x})
+			}
+		case "reopen":
+			emit(Op{K: "reopen"})
+		case "death": // an inner agent (parent and links) dies
+			var inner []int
+			for _, x := range m.sortedKnown() {
+				if _, ok := m.parent[x]; ok && x < n && m.nlinks(x) > 0 {
+					inner = append(inner, x)
+				}
+			}
+			if len(inner) == 0 {
+				generic()
+				continue
+			}
+			emit(Op{K: rapid.SampledFrom([]string{"exit", "killdate", "markdead"}).Draw(t, "death"), A: pick("inner", inner)})
+		case "alive": // the operator marks a cut-off (hence "Disconnected") agent alive: restarts become possible again
+			if len(cuts) == 0 {
+				generic()
+				continue
+			}
+			emit(Op{K: "markalive", A: pick("cut", cuts)})
+		default:
+			generic()
+		}
+	}
+	return c
+}
+
 func TestC09b(t *testing.T) {
 	core.Run(t, core.Spec[Case]{
 		Property: "C09", Sub: "b",
-		Rule: "random histories of 1..25 events over 3-5 agents (ids from the whole 32-bit range incl. >= 2^31, 1..n registered at start; database file, a third each: fresh / created by the current code and opened again / a copy of the committed testdata/golden-schema.db made by the unchanged tree's db.DatabaseNew - labels db:fresh|existed|golden) with events reg, connect(p,c) for any pair incl. self / ancestor / an id never seen, failed connect, disconnect(p,x) incl. non-children, unknown ids and Removed=FALSE, exit, killdate, markdead, markalive, and reopen (~1 event in 20: a new Teamserver on the same file restores sessions and links as Start() does, then the history goes on - labels db:reopened, pivot-events-after-reopen, re-parenting-on-existing-db; a reopen is only performed while every stored link joins two active sessions); a violation that occurs on the golden file only, while its schema differs from a fresh one, is reported as schema|existing-database-differs-from-fresh|<tables>; one history in three starts with agent 0 linking 2..n-1 (+1) children and possibly dying, so that deaths with 3 and more links are frequent (labels death-links:0/1/2/3+); same oracle as (a). Non-trivial: a second link, a re-parenting, or a self/ancestor connect; distinct = (those four flags, links at death, death of a child, length bucket, child disconnect, reopened)",
+		Rule: "random histories of 1..25 events over 3-5 agents (or 20-70, see SIZE/SHAPE below; ids from the whole 32-bit range incl. >= 2^31, 1..n registered at start; database file, a third each: fresh / created by the current code and opened again / a copy of the committed testdata/golden-schema.db made by the unchanged tree's db.DatabaseNew - labels db:fresh|existed|golden) with events reg, connect(p,c) for any pair incl. self / ancestor / an id never seen, failed connect, disconnect(p,x) incl. non-children, unknown ids and Removed=FALSE, exit, killdate, markdead, markalive, and reopen (~1 event in 20: a new Teamserver on the same file restores sessions and links as Start() does, then the history goes on - labels db:reopened, pivot-events-after-reopen, re-parenting-on-existing-db; a reopen is only performed while every stored link joins two active sessions); a violation that occurs on the golden file only, while its schema differs from a fresh one, is reported as schema|existing-database-differs-from-fresh|<tables>; one history in three starts with agent 0 linking 2..n-1 (+1) children and possibly dying, so that deaths with 3 and more links are frequent (labels death-links:0/1/2/3+); same oracle as (a). Non-trivial: a second link, a re-parenting, or a self/ancestor connect; distinct = (those four flags, links at death, death of a child, length bucket, child disconnect, reopened). SIZE/SHAPE dimension: about one history in six (label universe:large, agents:20-39|40-70; the others universe:small) runs over 20-70 agents and starts with the connects that build a shape by construction, each naming an id the teamserver has not seen (one callback registers and links the agent): shape:chain (depth from {15,16,17,18,31,32,33,64,65} or random 3..69), shape:star (15-60 links on one agent), shape:broom (chain + fan of 2-8 at its end), shape:two-chains (two roots, depths from {7,8,9,15,16,17,31,32,33} or random); one in four restarts right after the shape; then 1..25 events, about half aimed at the shape: a deep agent names its ancestor at a drawn distance (1, 2, 15, 16, 17, depth-1, depth, random) or itself, an agent is linked below an agent of another tree (connect-across-trees: chains are stacked), a parent disconnects a child in the middle and the cut-off subtree root is later named by one of its own descendants at a drawn distance or linked elsewhere (cut-subtree-reconnected-below-own-descendant[>=16-hops-down]), markalive of a cut-off agent, death of an inner agent, reopen in between (reopen-at-depth>=16); the rest as in the small universes. Labels max-depth:<=4|5-15|16-17|18-33|>33 (deepest agent reached in the model forest), cyclic-connect-at-distance:1-2|3-15 and cyclic-connect-at-distance>=16, self-connect-at-depth>=16. Oracle unchanged; with more than 8 sessions the routing task after each event is queued for every agent WITHOUT links only (each walk to the root passes through all ancestors, so every Parent pointer is still followed); distinct additionally records depth 5-15 / >=16 and whether a cyclic connect at distance >=16 was attempted",
 		Gen:   genB, Check: checkCase, Classify: classify,
 		Assumptions: assumptions,
 	})
